@@ -1,7 +1,7 @@
 use super::Error;
 use anyhow::Result;
 use futures::{stream::FuturesUnordered, StreamExt};
-use indexmap::IndexMap;
+use indexmap::{IndexMap, IndexSet};
 use miette::SourceSpan;
 use semver::{Version, VersionReq};
 use std::{fs, path::Path, sync::Arc};
@@ -68,7 +68,8 @@ impl RegistryPackageResolver {
         &self,
         keys: &IndexMap<BorrowedPackageKey<'a>, SourceSpan>,
     ) -> Result<IndexMap<BorrowedPackageKey<'a>, Vec<u8>>, Error> {
-        // parses into `PackageName` and maps back to `SourceSpan`
+        // parses into `PackageName` and maps back to `SourceSpan`; one entry per
+        // key, in key order, as several keys may name the same package
         let package_names_with_source_span = keys
             .iter()
             .map(|(key, span)| {
@@ -82,23 +83,27 @@ impl RegistryPackageResolver {
                     (key.version.cloned(), *span),
                 ))
             })
-            .collect::<Result<IndexMap<PackageName, (Option<Version>, SourceSpan)>, Error>>()?;
+            .collect::<Result<Vec<(PackageName, (Option<Version>, SourceSpan))>, Error>>()?;
+        let package_names = package_names_with_source_span
+            .iter()
+            .map(|(name, _)| name)
+            .collect::<IndexSet<&PackageName>>();
 
         // fetch required package logs and return error if any not found
         if let Some(bar) = self.bar.as_ref() {
             bar.println("Updating", "package logs from the registry");
         }
 
-        match self
-            .client
-            .fetch_packages(package_names_with_source_span.keys())
-            .await
-        {
+        match self.client.fetch_packages(package_names).await {
             Ok(_) => {}
             Err(ClientError::PackageDoesNotExist { name, .. }) => {
+                let (_, (_, span)) = package_names_with_source_span
+                    .iter()
+                    .find(|(n, _)| *n == name)
+                    .unwrap();
                 return Err(Error::PackageDoesNotExist {
                     name: name.to_string(),
-                    span: package_names_with_source_span.get(&name).unwrap().1,
+                    span: *span,
                 });
             }
             Err(err) => {
